@@ -130,6 +130,13 @@ class ObjectTemplate(base.HyperValue, utils.Formattable):
         Please see 'ObjectTemplate' docstr for details.
     """
     super().__init__()
+    # A built-in dict/list is templated as its symbolic counterpart, which is
+    # what the placeholders are rebound in when decoding.
+    if not isinstance(value, symbolic.Symbolic):
+      if isinstance(value, dict):
+        value = symbolic.Dict(value)
+      elif isinstance(value, list):
+        value = symbolic.List(value)
     self._value = value
     self._root_path = utils.KeyPath()
     self._compute_derived = compute_derived
